@@ -484,7 +484,7 @@ func run(c *props.Ctx) {
 			if !c.Mine(idx) {
 				continue
 			}
-			if idx%512 == 0 && c.Expired() {
+			if c.Expired() { // every own history (idx%k would only ever coincide with one shard's share)
 				c.R.Cap("time budget reached before all histories were explored")
 				return
 			}
